@@ -127,15 +127,37 @@ def r2_hash_weights(ctx):
         ctx.ob(enc.where, "KmerEncoding.encode uses the weights |A|**arange(k)", ok, sym.canon(r.value.args[0]) if isinstance(r.value, ast.Call) else u(r.value), key="C13-R2|encode")
     # to_string: digits of the code, exhaustively for small k, n
     ts = ix.func(E, "KmerEncoding.to_string")
-    ifs = [s for s in linear_body(ts.node) if isinstance(s, ast.If) and "alphabet_size" in u(s.test)]
-    ctx.need(len(ifs) == 1, "to_string: alphabet-size dispatch not found")
+    stmts = linear_body(ts.node)
+    # the statements that compute the digits: everything after the array dispatch (`if ...ndim > 0: return ...`) up to the statement that wraps `tmp`
+    lo = next((i for i, s_ in enumerate(stmts) if isinstance(s_, ast.If) and "ndim" in u(s_.test)), None)
+    hi = next((i for i, s_ in enumerate(stmts) if isinstance(s_, ast.Assign) and u(s_.targets[0]) == "chars"), None)
+    ctx.need(lo is not None and hi is not None and lo < hi, "to_string: digit computation not found")
+    digit_stmts = stmts[lo + 1:hi]
+    ctx.need(any("tmp" in {u(t) for x in ast.walk(s_) if isinstance(x, ast.Assign) for t in x.targets} for s_ in digit_stmts), "to_string: alphabet-size dispatch not found")
+    # the code is an int64 up to |A|**k: its digits are exact only in integer arithmetic (a float quotient is exact up to 2**53 only)
+    inexact = []
+    for s_ in digit_stmts:
+        for x in ast.walk(s_):
+            if isinstance(x, ast.BinOp) and isinstance(x.op, ast.Div):
+                inexact.append(u(x))
+            if isinstance(x, ast.Call) and u(x.func) in ("np.floor", "np.log", "np.log2", "np.log10", "np.true_divide", "np.divide", "float", "np.float64", "np.power", "np.sqrt", "np.round", "np.rint", "np.trunc", "np.ceil"):
+                inexact.append(u(x))
+            if isinstance(x, ast.Call) and isinstance(x.func, ast.Attribute) and x.func.attr == "astype" and x.args and u(x.args[0]) in ("float", "np.float64", "np.float32"):
+                inexact.append(u(x))
+    ctx.ob(ts.where, "the digits of a code are extracted in integer arithmetic (shift / floor division / modulo): a float quotient loses the low digits of codes above 2**53",
+           not inexact, "; ".join(inexact[:3]), key="C13-R2|to_string-integer")
     bad = []
     total = 0
     for n in (2, 3, 4, 5):
         for k in (1, 2, 3, 4):
             for code in range(n ** k):
                 ev = Evaluator({"self": Obj(None, _k=k, _alphabet_encoding=Obj(None, alphabet_size=n)), ts.params[1]: code})
-                ev.run([ifs[0]])
+                try:
+                    ev.run(digit_stmts)
+                except Unrecognised:
+                    if inexact:
+                        break
+                    raise
                 tmp = ev.env.get("tmp")
                 want = [(code // n ** i) % n for i in range(k)]
                 total += 1
@@ -362,6 +384,73 @@ def _counts_not_written_in_place(ctx):
     r3_self_array_writes(ctx, ("bionumpy.sequence.count_encoded", "bionumpy.sequence.kmers", "bionumpy.sequence.position_weight_matrix", "bionumpy.sequence.minimizers",
                                "bionumpy.sequence.rollable", "bionumpy.sequence.string_matcher", "bionumpy.encodings.kmer_encodings"), floor=0)
 
+def r10_pwm_letters(ctx):
+    """Rows of a position weight matrix are paired with letters by POSITION.  (a) from_dict: row i, letter i and background i all come from the same key of the
+    probability dictionary; (b) a sequence that is already encoded is scored as it is only if its codes mean the same letters: its alphabet must START WITH
+    the matrix alphabet in the same order (having the same letters somewhere is not enough)."""
+    from ..cfg import CFG
+    from ..pend import edge_facts
+    ix = ctx.index
+    PW = "bionumpy.sequence.position_weight_matrix"
+    f = ix.func(PW, "PWM.from_dict")
+    d, bg = f.params[1], f.params[2]
+    env = {}
+    for x in body_walk(f.node):
+        if isinstance(x, ast.Assign) and isinstance(x.targets[0], ast.Name) and x.targets[0].id not in (bg,):
+            env[x.targets[0].id] = inline_locals(x.value, env)
+    ctx.need("matrix" in env and "alphabet" in env, "PWM.from_dict: matrix / alphabet not found")
+    m = env["matrix"]
+    ctx.need(isinstance(m, ast.BinOp) and isinstance(m.op, ast.Sub), "PWM.from_dict: matrix is not a difference of logs")
+
+    def strip(e):
+        while True:
+            if isinstance(e, ast.Subscript):
+                e = e.value
+            elif isinstance(e, ast.Call) and u(e.func) in ("np.log", "np.array", "np.asarray", "list") and e.args:
+                e = e.args[0]
+            else:
+                return e
+    P, B = strip(m.left), strip(m.right)
+    okp = u(P) == f"{d}.values()"
+    oka = sym.canon(env["alphabet"]) in (sym.canon(sym.parse_expr(f"''.join({d}.keys())")), sym.canon(sym.parse_expr(f"''.join({d})")))
+    ctx.ob(f.where, "matrix rows and alphabet letters are the values and keys of the same dictionary in its own order", okp and oka, f"{u(P)} / {u(env['alphabet'])}", key="C13-R10|rows-letters")
+    okb = None
+    if isinstance(B, ast.ListComp) and len(B.generators) == 1 and not B.generators[0].ifs:
+        it = u(B.generators[0].iter)
+        v = u(B.generators[0].target)
+        if it in (d, f"{d}.keys()") and u(B.elt) == f"{bg}[{v}]":
+            okb = True
+        elif it in (bg, f"{bg}.keys()", f"{bg}.values()", f"{bg}.items()"):
+            okb = False
+    elif u(B) in (f"{bg}.values()",):
+        okb = False
+    if okb is None:
+        raise Unrecognised(f"{f.where}: background vector `{u(B)}`")
+    ctx.ob(f.where, "the background probability of row i is looked up by row i's own letter (the background dict's own order is irrelevant)", okb, u(B), key="C13-R10|background-by-key")
+    g = ix.func(PW, "PWM.as_valid_encoded_array")
+    sq = g.params[1]
+    cfg = CFG(g.node)
+    envg = local_env(g.node)
+    n = 0
+    for r in cfg.nodes:
+        if not (r.kind == "stmt" and isinstance(r.ast, ast.Return) and u(r.ast.value) == sq):
+            continue
+        n += 1
+        facts = set()
+        for t, lab in cfg.guards(r):
+            facts |= edge_facts(t, lab, envg)
+        pre = {f"(list(self._alphabet))==(list({sq}.encoding.get_alphabet())[:len(self._alphabet)])", f"(list({sq}.encoding.get_alphabet())[:len(self._alphabet)])==(list(self._alphabet))"}
+        okpre = any(v and k in pre for k, v in facts)
+        okmax = any((not v) and k == f"(len(self._alphabet))<=(np.max({sq}.raw()))" for k, v in facts)
+        about = [k for k, v in facts if "get_alphabet" in k or "_alphabet" in k]
+        if not okpre and any(("==" in k and "[:" in k) for k in about):
+            raise Unrecognised(f"{g.where}: alphabet comparison `{about}`")
+        ctx.ob(g.where, "an already encoded sequence is scored as it is only if its alphabet starts with the matrix alphabet in the same order (code i must mean matrix row i)",
+               okpre, f"guards: {sorted(about)}", key="C13-R10|prefix-order")
+        ctx.ob(g.where, "... and only if none of its codes lies beyond the matrix rows", okmax, "", key="C13-R10|codes-in-range")
+    ctx.floor("pass-through returns of PWM.as_valid_encoded_array", n, 1)
+
+
 RULES = [
     ("C13-R1", r1_trailing_trim),
     ("C13-R2", r2_hash_weights),
@@ -374,4 +463,5 @@ RULES = [
     ("C13-T2", _small_edits),
     ("C13-R8", _delta_arrays),
     ("C13-R9", _counts_not_written_in_place),
+    ("C13-R10", r10_pwm_letters),
 ]
